@@ -113,3 +113,43 @@ def streams(tier, rng):
                 return [('not-consumed', 'second SYST:ERR? answered %r: the entry was not consumed' % resp2)]
             return []
         yield {'name': 'systerr-' + flavor, 'flavor': flavor, 'cases': qc, 'oracle': oracle2, 'nontrivial': lambda c, o: c if '22' in c else None}
+    # interleaved histories: pushes with texts of various lengths and SYST:ERR? in any order
+    for flavor in ('default', 'static'):
+        hc, hi = [], {}
+        for _ in range(600 if tier == 'quick' else 10000):
+            cap = rng.choice([2, 3, 4, 8])
+            hs = rng.choice([24, 40, 64, 128, 512])
+            ops, ref = [], []
+            q = []
+            for _ in range(rng.randint(3, 12)):
+                if rng.random() < 0.55:
+                    code = rng.choice([-113, -241, -330, 1234, -100])
+                    t = bytes(rng.choice(b'abc ";') for _ in range(rng.choice([1, 3, 8, 17, 30, 60])))
+                    ops.append('P %d %s 0 0' % (code, t.hex()))
+                    if len(q) < cap:
+                        q.append((code, t))
+                    else:
+                        q[-1] = (-350, None)
+                else:
+                    ops.append('S')
+                    ref.append((len(ops), q.pop(0) if q else (0, None)))
+            c = '|'.join(['EQ %d %d' % (cap, hs)] + ops)
+            hc.append(c)
+            hi[c] = ref
+
+        def horacle(case, out, hi=hi, static=(flavor == 'static')):
+            if out.startswith('X') or ' X' in out or case not in hi:
+                return []
+            toks = out.split(' ')
+            for (k, (code, t)) in hi[case]:
+                resp = vf.unhx(toks[k].split('/')[0][1:])
+                e = check_response(resp, code, t, tbl, fb)
+                if e and static and t is not None:
+                    # the static heap may have had no room for the text: "text or nothing"
+                    e2 = check_response(resp, code, None, tbl, fb)
+                    if e2 is None:
+                        e = None
+                if e:
+                    return [('error-response', 'operation %d: %s | code %d text %r' % (k, e, code, t))]
+            return []
+        yield {'name': 'interleaved-' + flavor, 'flavor': flavor, 'cases': hc, 'oracle': horacle, 'nontrivial': lambda c, o: c if c.count('|S') >= 2 else None}
